@@ -148,8 +148,11 @@ def shard(shard_i, nshards, payload):
                         if cons and not any(d["code"] in ("P0010", "P0019", "P0020") for d in r.get("diags", [])):
                             res.violation("not-conserved", "conservation:placement", cons, case)
             # ---- (1b) lexical and syntax fault files among valid files
-            for name, text, want in (LEX_FAULT, SYN_FAULT):
+            import hostile
+            for name, text, want in (LEX_FAULT, SYN_FAULT, ("lexical-where", None, {"P0031", "P0002"})):
                 for variant in range(payload["placements"]):
+                    if name == "lexical-where":
+                        text = hostile.lex_fault_text(rng, "lexw%d" % i)
                     k = rng.randint(0, 4)
                     files = [(part_names[0], vgen.render_unit(decls, oscat=osc))] if variant % 2 == 0 else []
                     files += rng.sample(companions, k) + [(bad_name, text)]
@@ -271,7 +274,10 @@ def cli_shard(shard_i, nshards, payload):
             decls = vgen.VGen(rng, prefix="A", avoid=payload["avoid"]).unit()
             comp = vgen.render_unit(vgen.VGen(rng, prefix="C", avoid=payload["avoid"]).unit(with_config=False))
             kind = i % 3
-            if kind == 0:
+            if kind == 0 and i % 2:
+                import hostile
+                bad = ("lexical", hostile.lex_fault_text(rng, "lexc%d" % i), {"P0031", "P0002"})
+            elif kind == 0:
                 bad = LEX_FAULT
             elif kind == 1:
                 bad = SYN_FAULT
@@ -336,6 +342,30 @@ def cli_shard(shard_i, nshards, payload):
                     res.distinct.add(core.key_of("cli", bad[0], len(args), args is orders[2]))
             shutil.rmtree(d, ignore_errors=True)
             shutil.rmtree(os.path.join(tmp, "real%d" % i), ignore_errors=True)
+        # a faulty declaration stays a reason to fail however many other problems accompany it
+        counts = [1, 2, 255, 256, 257, 511, 512, 513, 768, 1024]
+        for j, n in enumerate(counts):
+            if j % nshards != shard_i:
+                continue
+            d = os.path.join(tmp, "many%d" % n)
+            os.makedirs(d)
+            open(os.path.join(d, "good.st"), "w").write("PROGRAM g VAR x : INT; END_VAR x := 1; END_PROGRAM\n")
+            open(os.path.join(d, "consts.st"), "w").write(
+                "FUNCTION_BLOCK ManyConsts\nVAR CONSTANT\n" + "".join("  c%d : INT;\n" % k for k in range(n)) + "END_VAR\nEND_FUNCTION_BLOCK\n")
+            for args in ([d], [os.path.join(d, "consts.st")], [os.path.join(d, "consts.st"), os.path.join(d, "good.st")]):
+                r = core.run_cli(["check"] + args, tmp, timeout=120.0)
+                res.evaluations += 1
+                res.count("cli-many-faults")
+                case = {"files": [["consts.st", "%d constants without a value" % n]], "args": [os.path.basename(a) for a in args], "planted": "P0016 x %d" % n}
+                if r["watchdog"]:
+                    res.inconclusive.append({"why": "cli watchdog", "case": case})
+                elif r["rc"] == 101 or (r["rc"] is not None and r["rc"] < 0):
+                    res.violation("crash", "cli:crash", r["err"][-300:], case)
+                elif r["rc"] == 0 or "OK" in r["out"].split():
+                    res.violation("masked", "cli:many-faults:accepted", {"rc": r["rc"], "n": n}, case)
+                else:
+                    res.distinct.add(core.key_of("many", n, len(args)))
+            shutil.rmtree(d, ignore_errors=True)
     finally:
         shutil.rmtree(tmp, ignore_errors=True)
     return res.to_dict()
